@@ -931,6 +931,16 @@ class HistogramBase(abc.ABC):
             return self.copy()
         return self + other
 
+    def _set_contents(self, frequencies: np.ndarray, errors2: np.ndarray) -> None:
+        """Set frequencies and errors2 together: both, or (if one is refused) neither."""
+        previous = self._frequencies
+        self.frequencies = frequencies
+        try:
+            self.errors2 = errors2
+        except ValueError:
+            self._frequencies = previous
+            raise
+
     def __iadd__(self, other):
         if isinstance(other, HistogramBase):
             if other.ndim != self.ndim:
@@ -938,8 +948,9 @@ class HistogramBase(abc.ABC):
             if self.has_same_bins(other):
                 # print("Has same!!!!!!!!!!")
                 self._coerce_dtype(other.dtype)
-                self.frequencies = self.frequencies + other.frequencies
-                self.errors2 = self.errors2 + other.errors2
+                self._set_contents(
+                    self.frequencies + other.frequencies, self.errors2 + other.errors2
+                )
                 self._missed += other._missed
             elif self.is_adaptive():
                 if other.missed > 0:
@@ -956,8 +967,9 @@ class HistogramBase(abc.ABC):
                     map1, map2 = new_bins.adapt(other._binnings[i])
                     self._change_binning(new_bins, map1, axis=i)
                     other._change_binning(new_bins, map2, axis=i)
-                self.frequencies = self.frequencies + other.frequencies
-                self.errors2 = self.errors2 + other.errors2
+                self._set_contents(
+                    self.frequencies + other.frequencies, self.errors2 + other.errors2
+                )
             else:
                 raise ValueError("Incompatible binning")
             if hasattr(self, "_stats") and hasattr(other, "_stats"):
@@ -999,8 +1011,7 @@ class HistogramBase(abc.ABC):
                 )
                 missed = self._missed - other._missed
                 self._coerce_dtype(new_dtype)
-                self.frequencies = frequencies
-                self.errors2 = errors2
+                self._set_contents(frequencies, errors2)
                 self._missed = missed
             self._stats = INVALID_STATISTICS
             return self
